@@ -19,6 +19,7 @@ claims = {
  'C11': ("associativity and two-sided identity of every loop-free Monoid/Semigroup instance and combinator (Tuple2..21 by schema), the named instances compute what their names say, seq.Reduce / seq.Fold equal the recursive left fold (loop invariant against RecFoldL); FoldMap by a bounded lemma.", "§5 C11"),
  'C19': ("rely/guarantee proof for CopyOnWriteMap: the atomic cell is written only under the lock (stable while held), published maps are never modified, Updated and ComputeIf/ComputeIfAbsent each have exactly one atomic write whose effect is the sequential operation applied to the map current at that instant (a present key is never overwritten by ComputeIfAbsent, the returned value is the stored one), readers do one Load and cannot panic, all under arbitrary environment steps between atomic operations. Removed/UpdatedWith/Iterator not yet covered; 'single linearisation point implies linearizable' is the standard meta-theorem, not re-proved.", "§5 C19"),
  'C12': ("iterator consumers (ToSeq, Count, Find, Exists, ForAll, Foreach, Fold*, Reduce, Drop…) against an arbitrary protocol-abiding input iterator with loop invariants and termination measures; step + initial-state lemmas (coupling invariant, arbitrary reachable state by havoc) for the lazy combinators Take, TakeWhile, DropWhile, Filter, Map, TapEach, FlatMap, Concat, Zip*, Scan, Range, FromSeq… including the laziness clause (how far one HasNext/Next pulls); fp.Seq and seq functions against quantified postconditions; bounded stand-ins (reported separately, never as proofs) for end-to-end agreement of every combinator with the eager Seq result on inputs of length <= 3 and for Duplicate/Span/Partition under all pull interleavings. Not covered: lazy List, GroupBy/ToMap/ToSet, Min/Max unbounded, the induction from step lemmas to whole runs (paper).", "§5 C12"),
+ 'C15': ("Option/Unit JSON methods relative to an assumed contract of encoding/json (JSONFaithful): Some(v) and None round-trip through MarshalJSON/UnmarshalJSON, None and Unit encode as the literal null, UnmarshalJSON on arbitrary bytes never panics, reports an error for a nil target and leaves the target unchanged on error. Not covered: @fp.Json structs generated by gombok (generator output, see C07).", "§5 C15"),
  'C16': ("lazy.Run computes the denotation Rec_den of an Eval program (loop invariant, partial correctness); Done/Call/TailCall constructors, bind law den(e.FlatMap f) = den(f(den e)) and Map/Map2 by explicit induction step lemmas; Memoize/Call run their thunk at most once (trace) relative to the trusted sync.Once contract. Not covered: stack-space bound of the trampoline (resource property, not expressible), TailCallN family.", "§5 C16"),
  'C20': ("protocol obligations for every iterator constructor/combinator with a step lemma: HasNext idempotent and effect-free on the abstract state, Next after true HasNext returns the head and advances, Next on exhaustion panics; zero-value Iterator behaves as empty in every method; Duplicate/Span/Partition by bounded stand-ins over all schedules of six pulls.", "§5 C20"),
  'C14': ("defining equation of every arity-indexed family member (curried, hlist, product, as, tuples/labelled accessors, fp.Compose/Id/ApplyFirst/ApplyLast, fn1.Merge, unit.Func, option/try LiftA/LiftM/Map/FlatMap/Flap/Method, builders) at every arity present in the source, with pairwise distinct opaque types per position.", "§5 C14"),
